@@ -901,7 +901,7 @@ def check_C18(sc, v, tier, seed, replay):
     # (a) key by key through the real loader
     sc.build(["rec-config"])
     trace = os.path.join(sc.work, "config.ndjson")
-    sc.run("rec-config", ["-seed", seed, "-tier", tier, "-out", trace])
+    sc.run("rec-config", ["-seed", seed, "-tier", tier, "-out", trace, "-shipped", os.path.join(sc.repo, "config.yaml")])
     # (c) argument vectors of length 0..3
     emu = online.prepare(sc)
     words = ["-t", "-x", "", "-t -t"]
